@@ -230,9 +230,9 @@ Definition tbl_rollback (tb : table) : table :=
   | None => tb
   end.
 
-(* xSync: read-only tables skip the storage commit; otherwise Commit to the bucket *)
+(* xSync: read-only tables skip the storage commit and end their transaction; otherwise Commit to the bucket *)
 Definition tbl_sync (corder : list name) (tb : table) : prog row table :=
-  if tb_ro tb then Ret tb
+  if tb_ro tb then Ret (tbl_rollback tb)
   else bind (commit corder (tb_h tb)) (fun '(h', r) =>
          match r with
          | COk _ => Ret {| tb_h := h'; tb_tx := None; tb_ncols := tb_ncols tb; tb_ro := tb_ro tb |}
